@@ -4,6 +4,8 @@ use vstd::prelude::*;
 use core::cmp::Ordering;
 use std::cmp;
 use vstd::std_specs::cmp::{OrdSpec, PartialOrdSpec, PartialEqSpec};
+use vstd::std_specs::ops::*;
+use std::ops::{Sub, Mul, AddAssign};
 verus! {
 //@include ../shim/order.rs
 //@include ../shim/ndarr.rs
@@ -29,7 +31,126 @@ pub proof fn lemma_count_bound<A: PartialEq>(s: Seq<(A, A)>)
     if s.len() > 0 { lemma_count_bound::<A>(s.drop_last()); }
 }
 
+// the distance folds, over index-aligned pairs
+pub open spec fn sq_f<A: Signed + AddAssign>() -> spec_fn(A, (A, A)) -> A { |acc: A, p: (A, A)| *acc.add_assign_spec(p.0.sub_spec(p.1).mul_spec(p.0.sub_spec(p.1))) }
+pub open spec fn l1_f<A: Signed + AddAssign>() -> spec_fn(A, (A, A)) -> A { |acc: A, p: (A, A)| *acc.add_assign_spec(p.0.sub_spec(p.1).abs_spec()) }
+pub open spec fn linf_f<A: Signed + PartialOrd>() -> spec_fn(A, (A, A)) -> A { |acc: A, p: (A, A)| if p.0.sub_spec(p.1).abs_spec().partial_cmp_spec(&acc) == Some(Ordering::Greater) { p.0.sub_spec(p.1).abs_spec() } else { acc } }
+// all index-aligned pairs, each exactly once, in the order in which Zip happened to visit them
+pub open spec fn visits_all<A>(ps: Seq<(A, A)>, a: Seq<A>, b: Seq<A>) -> bool { ps.to_multiset() == zip_seq(a, b).to_multiset() }
+
 impl<A, D: Dimension> ArrayN<A, D> {
+//@extract file=src/deviation.rs impl=DeviationExt:ArrayBase fn=sq_l2_dist id=sq_l2_dist tags=C09,C17,C20 body_tags=C09
+//@sig
+    fn sq_l2_dist(&self, other: &ArrayN<A, D>) -> (r: Result<A, MultiInputError>)
+    where
+        A: AddAssign + Clone + Signed,
+//@spec
+        requires arith_total::<A>(), lawful_clone::<A>(),
+        ensures
+            self@.len() == 0 ==> r matches Err(MultiInputError::EmptyInput), // [C09,C17]
+            self@.len() > 0 && self.shape_spec() != other.shape_spec() ==> r is Err, // [C09,C17]
+            // sum of (a-b)^2 over all index-aligned pairs (each once); for a commutative-associative `+` the order is immaterial
+            self@.len() > 0 && self.shape_spec() == other.shape_spec() ==> (r matches Ok(v) && exists|ps: Seq<(A, A)>| #[trigger] visits_all(ps, self@, other@) && v == ps.fold_left(A::zero_spec(), sq_f::<A>())
+                && (vstd::seq_lib::commutative_foldl(sq_f::<A>()) ==> v == zip_seq(self@, other@).fold_left(A::zero_spec(), sq_f::<A>()))), // [C09,C20]
+//@at entry
+        proof { assert(lawful_clone::<usize>()); }
+//@at before_call verif_zip2 0
+        proof { assert(self.shape_spec() =~= other.shape_spec()); }
+        let ghost mut idx_g: int = 0;
+//@loop 0
+            invariant
+                arith_total::<A>(), lawful_clone::<A>(),
+                it.seq() == __zs, __zs.len() == self@.len(), idx_g == it.index@, idx_g <= __zs.len(),
+                result == pairs_of(__zs).subrange(0, idx_g).fold_left(A::zero_spec(), sq_f::<A>()), // [C09]
+//@at loop_end 0
+            proof {
+                lemma_fold_prefix(pairs_of(__zs), idx_g, A::zero_spec(), sq_f::<A>());
+                idx_g = idx_g + 1;
+            }
+//@at after_loop 0
+        proof {
+            let ps = pairs_of(__zs);
+            assert(idx_g == self@.len());
+            assert(ps.subrange(0, ps.len() as int) =~= ps);
+            assert(visits_all(ps, self@, other@));
+            if vstd::seq_lib::commutative_foldl(sq_f::<A>()) { vstd::seq_lib::lemma_fold_left_permutation(ps, zip_seq(self@, other@), sq_f::<A>(), A::zero_spec()); }
+        }
+//@end
+
+//@extract file=src/deviation.rs impl=DeviationExt:ArrayBase fn=l1_dist id=l1_dist tags=C09,C17,C20 body_tags=C09
+//@sig
+    fn l1_dist(&self, other: &ArrayN<A, D>) -> (r: Result<A, MultiInputError>)
+    where
+        A: AddAssign + Clone + Signed,
+//@spec
+        requires arith_total::<A>(), lawful_clone::<A>(),
+        ensures
+            self@.len() == 0 ==> r matches Err(MultiInputError::EmptyInput), // [C09,C17]
+            self@.len() > 0 && self.shape_spec() != other.shape_spec() ==> r is Err, // [C09,C17]
+            self@.len() > 0 && self.shape_spec() == other.shape_spec() ==> (r matches Ok(v) && exists|ps: Seq<(A, A)>| #[trigger] visits_all(ps, self@, other@) && v == ps.fold_left(A::zero_spec(), l1_f::<A>())
+                && (vstd::seq_lib::commutative_foldl(l1_f::<A>()) ==> v == zip_seq(self@, other@).fold_left(A::zero_spec(), l1_f::<A>()))), // [C09,C20] sum of |a-b|
+//@at entry
+        proof { assert(lawful_clone::<usize>()); }
+//@at before_call verif_zip2 0
+        proof { assert(self.shape_spec() =~= other.shape_spec()); }
+        let ghost mut idx_g: int = 0;
+//@loop 0
+            invariant
+                arith_total::<A>(), lawful_clone::<A>(),
+                it.seq() == __zs, __zs.len() == self@.len(), idx_g == it.index@, idx_g <= __zs.len(),
+                result == pairs_of(__zs).subrange(0, idx_g).fold_left(A::zero_spec(), l1_f::<A>()), // [C09]
+//@at loop_end 0
+            proof {
+                lemma_fold_prefix(pairs_of(__zs), idx_g, A::zero_spec(), l1_f::<A>());
+                idx_g = idx_g + 1;
+            }
+//@at after_loop 0
+        proof {
+            let ps = pairs_of(__zs);
+            assert(idx_g == self@.len());
+            assert(ps.subrange(0, ps.len() as int) =~= ps);
+            assert(visits_all(ps, self@, other@));
+            if vstd::seq_lib::commutative_foldl(l1_f::<A>()) { vstd::seq_lib::lemma_fold_left_permutation(ps, zip_seq(self@, other@), l1_f::<A>(), A::zero_spec()); }
+        }
+//@end
+
+//@extract file=src/deviation.rs impl=DeviationExt:ArrayBase fn=linf_dist id=linf_dist tags=C09,C17,C20 body_tags=C09
+//@sig
+    fn linf_dist(&self, other: &ArrayN<A, D>) -> (r: Result<A, MultiInputError>)
+    where
+        A: Clone + PartialOrd + Signed,
+//@spec
+        requires A::obeys_sub_spec(), forall|a: A, b: A| #[trigger] a.sub_req(b), A::obeys_partial_cmp_spec(), lawful_clone::<A>(),
+        ensures
+            self@.len() == 0 ==> r matches Err(MultiInputError::EmptyInput), // [C09,C17]
+            self@.len() > 0 && self.shape_spec() != other.shape_spec() ==> r is Err, // [C09,C17]
+            self@.len() > 0 && self.shape_spec() == other.shape_spec() ==> (r matches Ok(v) && exists|ps: Seq<(A, A)>| #[trigger] visits_all(ps, self@, other@) && v == ps.fold_left(A::zero_spec(), linf_f::<A>())
+                && (vstd::seq_lib::commutative_foldl(linf_f::<A>()) ==> v == zip_seq(self@, other@).fold_left(A::zero_spec(), linf_f::<A>()))), // [C09,C20] running maximum of |a-b| starting from zero
+//@at entry
+        proof { assert(lawful_clone::<usize>()); }
+//@at before_call verif_zip2 0
+        proof { assert(self.shape_spec() =~= other.shape_spec()); }
+        let ghost mut idx_g: int = 0;
+//@loop 0
+            invariant
+                A::obeys_sub_spec(), forall|a: A, b: A| #[trigger] a.sub_req(b), A::obeys_partial_cmp_spec(), lawful_clone::<A>(),
+                it.seq() == __zs, __zs.len() == self@.len(), idx_g == it.index@, idx_g <= __zs.len(),
+                max == pairs_of(__zs).subrange(0, idx_g).fold_left(A::zero_spec(), linf_f::<A>()), // [C09]
+//@at loop_end 0
+            proof {
+                lemma_fold_prefix(pairs_of(__zs), idx_g, A::zero_spec(), linf_f::<A>());
+                idx_g = idx_g + 1;
+            }
+//@at after_loop 0
+        proof {
+            let ps = pairs_of(__zs);
+            assert(idx_g == self@.len());
+            assert(ps.subrange(0, ps.len() as int) =~= ps);
+            assert(visits_all(ps, self@, other@));
+            if vstd::seq_lib::commutative_foldl(linf_f::<A>()) { vstd::seq_lib::lemma_fold_left_permutation(ps, zip_seq(self@, other@), linf_f::<A>(), A::zero_spec()); }
+        }
+//@end
+
 //@extract file=src/deviation.rs impl=DeviationExt:ArrayBase fn=count_eq id=count_eq tags=C09,C17,C20 body_tags=C09
 //@sig
     fn count_eq(&self, other: &ArrayN<A, D>) -> (r: Result<usize, MultiInputError>)
